@@ -235,3 +235,20 @@ Theorem genesis_admin_first_refuted :
     admin_of s d = Some c /\ admin_of (orun sh ops s) d = Some b.
 Proof. exact genesis_admin_first_refuted_lemma. Qed.
 Print Assumptions genesis_admin_first_refuted.
+
+(** ---- third round: CosmWasm custom-message entry points (libwasm router -> bindings) ---- *)
+
+(** Per-run obligation over the binding table extracted from x/<module>/bindings: no identity-bearing
+    body field reaches a keeper unguarded; beneficiaries are the reviewed ones; the contract address is
+    what the keepers act for. *)
+Theorem wasm_table_closed : forallb spec_ok Gen.C03.wasm_specs = true.
+Proof. exact wasm_table_closed_lemma. Qed.
+Print Assumptions wasm_table_closed.
+
+(** For every binding, contract, body, and state: if the dispatch succeeds and anything held in p's
+    name differs afterwards, p is the dispatching contract (the principal wasmd authenticated). *)
+Theorem wasm_dispatch_only_contract : forall spec, In spec Gen.C03.wasm_specs ->
+  forall auth g m s s', m_ext m = [] -> deliver auth g spec m s = Done s' ->
+  forall p, get (owned s') p <> get (owned s) p -> p = m_creator m.
+Proof. exact wasm_dispatch_only_contract_lemma. Qed.
+Print Assumptions wasm_dispatch_only_contract.
